@@ -566,6 +566,22 @@ func Walk(t *Term, seen map[*Term]bool, f func(*Term)) {
 	f(t)
 }
 
+// WalkGround is Walk that does not enter quantified sub-formulas (whose terms may mention
+// bound variables and are not ground).
+func WalkGround(t *Term, seen map[*Term]bool, f func(*Term)) {
+	if seen[t] {
+		return
+	}
+	seen[t] = true
+	if t.Op == "forall" || t.Op == "exists" {
+		return
+	}
+	for _, a := range t.Args {
+		WalkGround(a, seen, f)
+	}
+	f(t)
+}
+
 func sortedKeys[M ~map[string]V, V any](m M) []string {
 	ks := make([]string, 0, len(m))
 	for k := range m {
